@@ -51,6 +51,19 @@ def gen(rng, tier):
             qs.append(["score", [t], c04.f64_bits(c04.idf_of(nd, dfs))])
         case = {"docs": docs, "tokz": rng.choice(["ws", "table", "gen", "yield"]), "opts": opts, "queries": qs,
                 "order_seed": rng.randint(0, 10 ** 6), "switch": rng.choice([None, 1e-6, 1e-5])}
+        # the settings must not change the answers of arrays DERIVED from the index either: selections, copies of
+        # selections, take, selections of selections (avoid_copies decides whether these share or copy postings)
+        if nd >= 2:
+            der = []
+            for _ in range(rng.randint(1, 3)):
+                m = rng.randint(1, min(nd, 6))
+                rows = rng.sample(range(nd), m) if rng.random() < 0.7 else [rng.randrange(nd) for _ in range(m)]
+                if rng.random() < 0.4:
+                    rows = sorted(rows)
+                der.append([rng.choice(["sel", "selcopy", "selcopy", "take", "take", "selsel", "copysel"]), rows])
+            case["derived"] = der
+            if rng.random() < 0.5:
+                case["opts"]["avoid_copies"] = rng.random() < 0.3          # mostly False: the non-default setting
         if i % 6 == 5:
             # term-dictionary race family: several threads add NEW tokens at the same time, and the harness forces a
             # preemption between the id computation and the store (see impl: yielding len in searcharray.term_dict)
@@ -74,6 +87,30 @@ def _run_queries(arr, qs):
                 out.append(["exc", type(e).__name__])
         else:
             out.append(K.run_query(arr, q))
+    return out
+
+
+def _run_derived(arr, case):
+    """answers of arrays derived from the index (rows picked by position): tf / df / score / phrase / lengths"""
+    import numpy as np
+    out = []
+    qs = [q for q in case["queries"] if q[0] in ("tf", "df", "score", "phrase", "lens")][:9]
+    for kind, rows in case.get("derived", []):
+        try:
+            key = np.array(rows, dtype=np.int64)
+            if kind == "sel":
+                d = arr[key]
+            elif kind == "selcopy":
+                d = arr[key].copy()
+            elif kind == "take":
+                d = arr.take(key)
+            elif kind == "selsel":
+                d = arr[key][::-1][: max(1, len(rows) - 1)]
+            else:
+                d = arr.copy()[key]
+            out.append(_run_queries(d, qs))
+        except Exception as e:   # noqa
+            out.append(["exc", type(e).__name__])
     return out
 
 
@@ -105,6 +142,7 @@ def impl(case):
     # baseline: one batch, one thread
     base = SearchArray.index(keys, **({"tokenizer": tk} if tk else {}), workers=1, batch_size=10 ** 9)
     rbase = _run_queries(base, case["queries"])
+    rbase_d = _run_derived(base, case)
     # configured build with a forced completion order
     orig = ix.as_completed
     rng = random.Random(case["order_seed"])
@@ -139,8 +177,10 @@ def impl(case):
     try:
         arr = SearchArray.index(keys, **({"tokenizer": tk} if tk else {}), **opts)
         rcfg = _run_queries(arr, case["queries"])
+        rcfg_d = _run_derived(arr, case)
     except Exception as e:   # noqa
         rcfg = {"build_exc": type(e).__name__, "msg": str(e)[:100]}
+        rcfg_d = None
     finally:
         ix.as_completed = orig
         if case.get("preempt") and not had_len:
@@ -148,7 +188,7 @@ def impl(case):
         sys.setswitchinterval(old)
         if ddir:
             shutil.rmtree(ddir, ignore_errors=True)
-    return {"base": rbase, "cfg": rcfg}
+    return {"base": rbase, "cfg": rcfg, "base_d": rbase_d, "cfg_d": rcfg_d}
 
 
 def model_req(case):
@@ -207,8 +247,8 @@ def spec_decode(case, r):
 def equal(case, a, b):
     if not isinstance(a, dict) or "base" not in a:
         return False
-    if a["cfg"] != a["base"]:
-        return False                      # the configuration changed an answer
+    if a["cfg"] != a["base"] or a.get("cfg_d") != a.get("base_d"):
+        return False                      # the configuration changed an answer (of the index or of a derived array)
     if "q" not in b:
         return False
     from harness.props import c03
